@@ -10,18 +10,21 @@ def m(mid, prop, file, old, new, what):
 
 # ------------------------------------------------------------------ C01 / C16 / C17 (library)
 m("c01-no-strong-confirm", "C01", "src/signature.rs",
-  """        candidates
+  """        let strong = StrongHash::compute(data);
+
+        candidates
             .iter()
             .map(|&i| &self.signature.blocks[i])
             .find(|sig| sig.strong_hash == strong)
     }
 
-    /// Optimized""",
-  """        let _ = strong;
+    /// Find a matching block with optimized""",
+  """        let strong = StrongHash::compute(data);
+        let _ = strong;
         candidates.iter().map(|&i| &self.signature.blocks[i]).next()
     }
 
-    /// Optimized""",
+    /// Find a matching block with optimized""",
   "find_match trusts the weak checksum alone (weak-checksum twins reconstruct wrong bytes)")
 m("c01-async-delta-tail", "C01", "src/async_sync.rs",
   """        if pos < source_data.len() {
@@ -65,10 +68,10 @@ m("c17-fast-no-mod", "C17", "src/checksum.rs",
   """        self.a = self.a + Self::MOD + new - old;""",
   """        self.a = self.a + 255 + new - old;""",
   "FastRollingChecksum::roll compensates with 255 instead of MOD (digest off after a slide)")
-m("c17-normalize", "C17", "src/checksum.rs",
-  """    const NORMALIZE_INTERVAL: u32 = 5000;""",
-  """    const NORMALIZE_INTERVAL: u32 = 4_000_000;""",
-  "lazy normalisation postponed: u64 sums overflow only after very many slides of large windows")
+m("c17-fast-comp-128", "C17", "src/checksum.rs",
+  """        self.b = self.b + Self::MOD * (self.count as u64) + self.a - self.count as u64 * old;""",
+  """        self.b = self.b + Self::MOD * 128 + self.a - self.count as u64 * old;""",
+  "FastRollingChecksum::roll compensates b with 128*MOD: wraps only for windows > ~32 K of high bytes right after a normalisation")
 # ------------------------------------------------------------------ C05 / C20
 m("c05-async-no-verify", "C05", "src/async_sync.rs",
   """        if self.config.verify_checksum {
@@ -144,14 +147,15 @@ m("c19-listing", "C19", "src/bin/copia/meta.rs",
   "listing parser splits on every tab (names containing a tab are truncated)")
 # ------------------------------------------------------------------ bisync
 m("c02-delmod-deletes", "C02", "src/bin/copia/bidir.rs",
-  """        Action::Conflict(ConflictKind::DeleteVsModify) => {
+  """            // Keep the modification: restore the surviving side onto the deleted one.
             if a.contains_key(rel) {""",
-  """        Action::Conflict(ConflictKind::DeleteVsModify) => {
+  """            // Keep the modification: restore the surviving side onto the deleted one.
             if a.contains_key(rel) && !b.is_empty() {""",
   "delete-vs-modify survivor on A is not restored when B is empty ... (record dropped, nothing copied)")
 m("c02-conflict-order", "C02", "src/bin/copia/bidir.rs",
   """            copy_atomic(&lose_full, &lose_root.join(&loser_name))?;
             copy_atomic(&lose_full, &win_root.join(&loser_name))?;
+            // 2. Put the winner's content on both real paths (winner side already has it).
             copy_atomic(&win_full, &lose_full)?;""",
   """            copy_atomic(&win_full, &lose_full)?;
             copy_atomic(&lose_full, &lose_root.join(&loser_name))?;
@@ -162,18 +166,16 @@ m("c06-winner-side", "C06", "src/bin/copia/bidir.rs",
   """            let (win_root, win_fp, lose_root, lose_fp) = if fa.blake3[1..] >= fb.blake3[1..] {""",
   "winner chosen ignoring the first hash byte (differs from greater-BLAKE3 only when first bytes decide)")
 m("c06-archive-base", "C06", "src/bin/copia/bidir.rs",
-  """        Action::ConvergeIdentical => {
+  """            // record it as the new common base.
             if let Some(fp) = a.get(rel) {
                 common.insert(rel.to_path_buf(), *fp);
-            }
-        }""",
-  """        Action::ConvergeIdentical => {
+            }""",
+  """            // record it as the new common base.
             if let Some(fp) = a.get(rel) {
                 if common.contains_key(rel) {
                     common.insert(rel.to_path_buf(), *fp);
                 }
-            }
-        }""",
+            }""",
   "identical files created independently on both sides are not recorded (second run plans an action)")
 m("c07-bak-fallback", "C07", "src/bin/copia/archive.rs",
   """        let bytes = std::fs::read(path).ok()?;
@@ -252,7 +254,7 @@ m("c09-local-direct", "C09", "src/bin/copia/incremental.rs",
             .map_err(|e| format!("rename {}: {e}", dst.display()))?;
     }""",
   "new local files are written in place (only replacements go through staging)")
-m("c09-pull-early-rename", "C09", "src/bin/copia/dir_sync.rs",
+m("c04-remote-failure-ignored", "C04", "src/bin/copia/dir_sync.rs",
   """    let written = tokio::io::copy(&mut stdout, &mut file)
         .await
         .map_err(|e| format!("stream {}: {e}", local_path.display()))?;
@@ -283,7 +285,22 @@ m("c09-pull-early-rename", "C09", "src/bin/copia/dir_sync.rs",
         return Err(format!("SSH failed for {remote_path}: {stderr}"));
     }
     Ok(written)""",
-  "pull ignores a failing remote cat once some bytes arrived")
+  "pull ignores a failing remote cat once some bytes arrived (needs a remote-side failure: outside every quantifier; kept as a documented blind spot)")
+m("c09-pull-direct-new", "C09", "src/bin/copia/incremental.rs",
+  """    let tmp = tmp_path(local_dest);
+    let size = transfer_file_from_remote(host, remote_file, &tmp).await?;
+    tokio::fs::rename(&tmp, local_dest)
+        .await
+        .map_err(|e| format!("rename {}: {e}", local_dest.display()))?;""",
+  """    let fresh = !tokio::fs::try_exists(local_dest).await.unwrap_or(true);
+    let tmp = if fresh { local_dest.to_path_buf() } else { tmp_path(local_dest) };
+    let size = transfer_file_from_remote(host, remote_file, &tmp).await?;
+    if !fresh {
+        tokio::fs::rename(&tmp, local_dest)
+            .await
+            .map_err(|e| format!("rename {}: {e}", local_dest.display()))?;
+    }""",
+  "pull streams NEW files straight to their final path (only replacements are staged)")
 m("c14-round", "C14", "src/bin/copia/meta.rs",
   """        .map_or(0, |d| i64::try_from(d.as_secs()).unwrap_or(0))""",
   """        .map_or(0, |d| i64::try_from(d.as_secs() + u64::from(d.subsec_nanos() >= 999_999_999)).unwrap_or(0))""",
@@ -295,7 +312,7 @@ m("c14-pull-mtime", "C14", "src/bin/copia/incremental.rs",
     Ok(size)
 }
 
-/// Apply""",
+/// Delete the mirror's stale files.""",
   """    if let Some(t) = mtime {
         if size > 0 {
             let _ = set_local_mtime(local_dest, t);
@@ -304,7 +321,7 @@ m("c14-pull-mtime", "C14", "src/bin/copia/incremental.rs",
     Ok(size)
 }
 
-/// Apply""",
+/// Delete the mirror's stale files.""",
   "pull does not set the mtime of empty files (re-sent on every run)")
 m("c15-dry-dirs", "C15", "src/bin/copia/incremental.rs",
   """    let plan = build_plan(&src_meta, &dst_meta, &opts.excludes, opts.delete);
@@ -408,10 +425,20 @@ m("c12-max-frame", "C12", "src/bin/copia/wire.rs",
     if len > MAX_FRAME && len < 0x8000_0000 {""",
   "length prefixes >= 2^31 bypass the MAX_FRAME check (2-4 GiB allocation)")
 m("c12-eof-retry", "C12", "src/bin/copia/wire.rs",
-  """        Err(e) if e.kind() == std::io::ErrorKind::UnexpectedEof => return Ok(None),""",
-  """        Err(e) if e.kind() == std::io::ErrorKind::UnexpectedEof && lenb == [0u8; 4] => return Ok(None),
-        Err(e) if e.kind() == std::io::ErrorKind::UnexpectedEof => return read_frame(r),""",
-  "EOF inside a length prefix retries forever (spins on a closed stdin)")
+  """    match r.read_exact(&mut lenb) {
+        Ok(()) => {}
+        Err(e) if e.kind() == std::io::ErrorKind::UnexpectedEof => return Ok(None),
+        Err(e) => return Err(e),
+    }""",
+  """    loop {
+        match r.read_exact(&mut lenb) {
+            Ok(()) => break,
+            Err(e) if e.kind() == std::io::ErrorKind::UnexpectedEof && lenb != [0u8; 4] => continue,
+            Err(e) if e.kind() == std::io::ErrorKind::UnexpectedEof => return Ok(None),
+            Err(e) => return Err(e),
+        }
+    }""",
+  "EOF after a partial, non-zero length prefix is retried forever (spins on a closed stdin)")
 m("c13-expected-none", "C13", "src/bin/copia/hub.rs",
   """        let expected = hub.get(&rel_s).map(|f| f.blake3);
         if expected == Some(fp.blake3) {""",
